@@ -29,8 +29,8 @@ Graph(g) with TaskGraphOK (recorded task graph, picker nodes contracted = depend
 8. Assembled pipelines (PipelineLazy: assembly; d.asm / d.easm, PipelineIsLazy guarding LBegin): TLC checks the laws of the flag
    operators on the assembly universe (parts joined by Pipeline.join or `|`, bare PipeFuncs, .copy() / .copy(lazy=...)), checks for
    every description x assembly that a deferred handle is to be had exactly from a pipeline assembled lazy, and exports the lazy
-   assemblies with their eager twins.  Every exported description in every order additionally in a history on a pipeline PUT TOGETHER
-   as one of these assemblies (rotating), the cache / fault / abort histories on assembled pipelines in every other position, the
+   assemblies with their eager twins.  Every exported description (in one listing order, alternating) additionally in a history on a
+   pipeline PUT TOGETHER as one of these assemblies (rotating), the cache / fault / abort histories on assembled pipelines in every other position, the
    random DAGs (up to 6 functions, up to three parts) likewise.
 7. User caches of every in-memory kind (simple / lru / hybrid) in the before-the-block / inside-the-block histories: only the kind
    the block itself keeps (OwnCacheInBlock) may contribute nodes created before the block to the recorded graph.
@@ -535,8 +535,9 @@ def histories_for_case(case: dict, rng: random.Random, scheme: str, idx: int = 0
                                        for j, o in enumerate(seq)], "in", oi)
         traces.append({"desc": t2, "ev": evs, "order": list(order)})
         # the same description as a lazy pipeline that was put together from parts (join / | / copy) instead of constructed
-        if asms and (scheme == "full" or oi % 3 == 2):
-            traces.append(assembled_history(tdesc, order, asms[(idx * math.factorial(n) + oi) % len(asms)], cuts, idx + oi))
+        # (one listing order per description, alternating with the case index; the assemblies rotate with it)
+        if asms and oi == (idx + 1) % math.factorial(n):
+            traces.append(assembled_history(tdesc, order, asms[(idx + idx // len(asms)) % len(asms)], cuts, idx + oi))
         # the same description as a pipeline with a user cache: called before and then inside a construct_dag() block
         if scheme == "full" or oi % 3 == 0:
             v = oi + len(names)
@@ -1057,7 +1058,7 @@ def run(ctx: Ctx) -> None:
                 "invocation, all raising on their first; plan and variant rotate with the case): three successive eager calls "
                 "next to three successive evaluate() calls on one handle | a handle abandoned after an evaluate() that raised, "
                 "then the other outputs as further handles of the same construct_dag block (sharing its nodes), then the first "
-                "again outside | the same through a user cache (all functions cached); every description in every order "
+                "again outside | the same through a user cache (all functions cached); every description (one listing order, alternating) "
                 "additionally on a lazy pipeline that was PUT TOGETHER instead of constructed - one of the TLC-exported lazy "
                 "assemblies, rotating: the listing cut into up to three parts (lazy or eager pipelines, bare PipeFuncs) joined by "
                 "Pipeline.join or `|`, then nothing / .copy() / .copy(lazy=...) - with its eager twin put together the same way from "
